@@ -267,7 +267,9 @@ def c07_oracle(base, spec, unedited, out):
                     if e[0] != "rich" or not isinstance(ge, dict):
                         continue
                     for name, v in e[2]:
-                        if v[0] == 8 and name in sw_args.get((kind, e[1]), []) and ge[name][0] in used_old:
+                        # (an authored switch that CARRIES a number asks for exactly that switch: not a new one)
+                        if v[0] == 8 and spec["pool"]["switches"][v[1]][1] is None and name in sw_args.get((kind, e[1]), []) \
+                                and ge[name][0] in used_old:
                             old_name = vb.switch(ge[name][0])[1] if vb.swnm else None
                             new_name = spec["pool"]["switches"][v[1]][0]
                             if not old_name or old_name != new_name:
